@@ -122,6 +122,18 @@ int main(int argc, char **argv)
 		wait_done(4 * g_burst_n, "burst");
 		for (int i = 0; i < 4 * g_burst_n; i++) if (atomic_load(&g_runs[i]) != 1) oracle_fail("global-queue item did not run exactly once (burst)", i, atomic_load(&g_runs[i]));
 	}
+	if (argc > 5 && atoi(argv[5])) {
+		/* let every pool thread hit its 5 s park timeout: each must give its budget unit back and exit */
+		/* (5 s timeout + scheduling latency; bounded at 40 s so that a leaked budget unit is reported, not waited for) */
+		for (int k = 0; k < 80; k++) { usleep(500000); vrt_progress(); if (k >= 12 && g_rq->dgq_thread_pool_size == ncpu && g_rq->dgq_pending == 0) break; }
+		vrt_mark("IdleQuiesce", ncpu, g_rq->dgq_thread_pool_size, g_rq->dgq_pending);
+		/* and the pool must come back to life afterwards */
+		memset((void *)g_runs, 0, sizeof(g_runs));
+		atomic_store(&g_done, 0);
+		for (long i = 0; i < 200; i++) dispatch_async_f(g_rq->_as_dq, (void *)i, quick);
+		wait_done(200, "after idle");
+		for (int i = 0; i < 200; i++) if (atomic_load(&g_runs[i]) != 1) oracle_fail("global-queue item did not run exactly once (after idle)", i, atomic_load(&g_runs[i]));
+	}
 	vrt_dump();
 	fprintf(stderr, "records=%zu threads=%d\n", vrt_count(), vrt_nthreads());
 	return atomic_load(&g_fail) ? 2 : 0;
